@@ -16,13 +16,13 @@ def _p(pid, contracts, bounded, explanation, level="other", **kw):
     d = {"contracts": contracts, "bounded": bounded, "level": level, "explanation": explanation}
     d.update(kw); PROPS[pid] = d
 
-_p("C01", ["instances", "profiling", "shexing", "filtering"], ["pipeline"],
+_p("C01", ["instances", "profiling", "shexing", "filtering", "c06_nt"], ["pipeline"],
    "Deductive: step contracts with whole-view frames for both counting passes (node->classes; (node,property,kind)->occurrences incl. shape kinds; "
    "(class,property,kind,cardinality)->#instances), frequency = n/N, every created statement carries its profile figure (loop invariants over the nested "
    "profile dictionaries), and the selection/tuning stage never writes a count (frame obligations; the original figure is kept as first comment before the "
    "probability is overwritten). The fold of the step contracts over the triple stream, the nested loops that enumerate (property, kind, cardinality) per "
    "instance, and the rendering of figures into text are covered by the " + MON)
-_p("C02", ["filtering", "shexing"], ["pipeline"],
+_p("C02", ["filtering", "shexing", "plumbing_profiler"], ["pipeline"],
    "Deductive: the threshold filter creates exactly one statement per candidate with frequency >= threshold (counting recurrence n_pass, boundary case kept) "
    "and nothing below it; MergeableConstraints keeps one slot per member (counting invariant) and merge_group yields one constraint for the property; "
    "_decide_best returns a member of its group. The two O(n^2) grouping loops and empty-shape removal are covered by the " + MON)
@@ -64,14 +64,14 @@ _p("C10", ["instances"], ["pipeline"],
    "Deductive: relevance tests (predicate == instantiation property and (all classes or object among the target IRIs); model __eq__ methods inlined from the "
    "real source) and the per-triple step of pass 1 with whole-view frames (node->classes dictionary as a shared heap cell); rdf:type is an ordinary property "
    "under another instantiation property (_decide_type_elem). Selector parsing / SPARQL evaluation and the stream-level composition: " + MON)
-_p("C11", ["c11_shacl"], ["schemas"],
+_p("C11", ["c11_shacl", "c18_state"], ["schemas"],
    "Deductive: both serializers verified against one reference table (cardinality -> min/max, statement type -> value restriction, direction -> path) with an "
    "effect-trace contract on every triple handed to rdflib.Graph.add, fresh blank nodes counted. Loops over shapes/statements and rdflib itself are assumed; "
    "the two documents of one Shaper are compared after parsing: bounded (schemas.py).")
 _p("C12", ["filtering", "c20_config"], ["pipeline"],
    "Deductive: the threshold is applied once, on raw candidates (filter contracts with the counting recurrence; >= from the statement), the range check of the "
    "argument, frequency = n/N. Monotonicity over pairs of thresholds on whole runs: " + MON)
-_p("C13", ["shexing", "serializers", "c18_state"], ["pipeline"],
+_p("C13", ["shexing", "serializers", "c18_state", "plumbing"], ["pipeline"],
    "Deductive: the tuning pipeline rewrites exactly what each switch documents (cardinality after tuning = documented function of the cardinality and "
    "probability before; counts, kinds, properties never written; with every switch off nothing is written; disable_comments touches comments only; a "
    "disjunction keeps property, cardinality and figures). Presentation options and decimals rounding on whole runs: " + MON)
@@ -79,11 +79,11 @@ _p("C14", ["instances", "profiling"], ["pipeline"],
    "Deductive: the inverse counting step is the mirror of the direct one (same clause text on the third component, kind of the subject, shape kinds only "
    "for IRI subjects) and leaves the outgoing features of the object untouched; both threshold filters carry the same contract. The three-run metamorphic "
    "relation (with / without inverse_paths / reversed graph): " + MON)
-_p("C15", ["c15_endpoint"], ["schemas"],
+_p("C15", ["c15_endpoint", "plumbing"], ["schemas"],
    "Deductive (under assumed SPARQL/HTTP contracts): per-node memoisation of the endpoint graph - the first request for a node and direction sends one "
    "query, later ones none; with the cache off every request sends one; hence caching never sends more queries (ghost query counter). Equality of the "
    "extracted shapes with a local run is decided with an in-process SPARQL evaluator substituted for the HTTP client: bounded (schemas.py).")
-_p("C16", ["instances", "c16_ns"], ["pipeline"],
+_p("C16", ["instances", "c16_ns", "plumbing"], ["pipeline"],
    "Deductive: counter invariant of the instance cap (every class counter <= limit, an instantiation triple is rejected exactly when its class is full, early "
    "stop only when the number of full classes reaches the number of target classes), proved per step with frames. Namespace filter and composition: " + MON)
 _p("C17", ["c17_min_iri"], ["schemas"],
